@@ -165,7 +165,7 @@ def history_strategy(tier):
 PARTS = [
     Part("fault-and-gap-sweep", "enum", check, cases=sweep_cases, exhaustive=True),
     Part("random-histories", "hyp", check, strategy=history_strategy,
-         examples={"quick": 300, "thorough": 3000}, shards={"quick": 4, "thorough": 16}),
+         examples={"quick": 300, "thorough": 12000}, shards={"quick": 4, "thorough": 16}),
 ]
 
 
